@@ -43,6 +43,7 @@ CaseOf(o) == [main |-> main, drop |-> [i \in 1..NLay |-> SetToSeq(drop[i])], shp
          rc |-> o.rc, exp |-> ObsOf(o.cfg),
          log |-> [j \in 1..Len(o.log) |-> FileJ(o.log[j])],
          hist |-> [j \in 1..Len(o.hist) |-> [f |-> FileJ(o.hist[j]), obs |-> ObsOf(Content(Tree, o.hist[j]))]],
+         merged |-> PathIsEmpty(Tree, NoFaults(Tree)),
          masked |-> Cardinality({j \in 1..Len(Consulted(Tree)) : Masked(Consulted(Tree), j)})]
 ExportCase == (Export /\ stage = NLay) => PrintT(ToJson(CaseOf(Outcome)))
 =============================================================================
